@@ -20,19 +20,70 @@ Qed.
 Lemma same_xy_false a b : same_xy a b = false <-> key a <> key b.
 Proof. rewrite <- same_xy_spec. destruct (same_xy a b); split; congruence. Qed.
 
+(* the loop written as a structural recursion ("keep the head, erase its copies from what the rest
+   keeps"); the two agree *)
+Fixpoint prune_rec (l : list (nat * nat * nat)) : list (nat * nat * nat) :=
+  match l with
+  | [] => []
+  | e :: r => e :: filter (fun e' => negb (same_xy e e')) (prune_rec r)
+  end.
+
+Lemma filter_comm {T} (f g : T -> bool) l : filter f (filter g l) = filter g (filter f l).
+Proof.
+  induction l as [|a r IH]; simpl; [reflexivity|].
+  destruct (g a) eqn:Eg, (f a) eqn:Ef; simpl; rewrite ?Eg, ?Ef, IH; reflexivity.
+Qed.
+
+Lemma filter_absorb {T} (f g : T -> bool) l : (forall x, g x = false -> f x = false) -> filter f (filter g l) = filter f l.
+Proof.
+  intros H. induction l as [|a r IH]; simpl; [reflexivity|].
+  destruct (g a) eqn:Eg; simpl; rewrite IH; [reflexivity|]. rewrite (H a Eg). reflexivity.
+Qed.
+
+Lemma filter_length_le {T} (f : T -> bool) l : (length (filter f l) <= length l)%nat.
+Proof. induction l as [|a r IH]; simpl; [lia|]. destruct (f a); simpl; lia. Qed.
+
+Lemma same_xy_sym a b : same_xy a b = same_xy b a.
+Proof. unfold same_xy. rewrite (Nat.eqb_sym (fst (fst a))), (Nat.eqb_sym (snd (fst a))). reflexivity. Qed.
+
+(* a predicate that looks at x, y only commutes with pruning *)
+Lemma prune_rec_filter (g : nat * nat * nat -> bool) : (forall a b, key a = key b -> g a = g b) ->
+  forall l, prune_rec (filter g l) = filter g (prune_rec l).
+Proof.
+  intros Hg. induction l as [|a r IH]; simpl; [reflexivity|]. destruct (g a) eqn:Ea.
+  - cbn [prune_rec]. rewrite IH. f_equal. apply filter_comm.
+  - rewrite IH. symmetry. apply filter_absorb. intros x Hx.
+    apply negb_false_iff, same_xy_spec in Hx. rewrite <- (Hg a x Hx). exact Ea.
+Qed.
+
+Lemma prune_loop_rec : forall fuel l, (length l <= fuel)%nat -> prune_loop fuel l = prune_rec l.
+Proof.
+  induction fuel as [|fuel IH]; intros l Hl.
+  - destruct l; [reflexivity|simpl in Hl; lia].
+  - destruct l as [|e r]; [reflexivity|]. cbn [prune_loop prune_rec]. f_equal.
+    rewrite IH by (pose proof (filter_length_le (fun e' => negb (same_xy e e')) r); simpl in Hl; lia).
+    apply prune_rec_filter. intros a b Hk. f_equal.
+    destruct (same_xy e a) eqn:E1, (same_xy e b) eqn:E2; try reflexivity.
+    + apply same_xy_spec in E1. apply same_xy_false in E2. congruence.
+    + apply same_xy_spec in E2. apply same_xy_false in E1. congruence.
+Qed.
+
+Lemma prune_eq l : prune l = prune_rec l.
+Proof. apply prune_loop_rec. lia. Qed.
+
 Lemma prune_In e l : In e (prune l) -> In e l.
 Proof.
-  revert e. induction l as [|a r IH]; simpl; intros e H; [exact H|].
+  rewrite prune_eq. revert e. induction l as [|a r IH]; simpl; intros e H; [exact H|].
   destruct H as [->|H]; [left; reflexivity|]. apply filter_In in H. right. apply IH. tauto.
 Qed.
 
 Lemma prune_keys_NoDup l : NoDup (map key (prune l)).
 Proof.
-  induction l as [|a r IH]; simpl; [constructor|].
+  rewrite prune_eq. induction l as [|a r IH]; simpl; [constructor|].
   constructor.
   - intros H. apply in_map_iff in H. destruct H as (e & He & Hin). apply filter_In in Hin.
     destruct Hin as [_ Hf]. apply negb_true_iff in Hf. apply same_xy_false in Hf. congruence.
-  - clear -IH. induction (prune r) as [|b q IHq]; simpl; [constructor|].
+  - clear -IH. induction (prune_rec r) as [|b q IHq]; simpl; [constructor|].
     inversion IH; subst. destruct (negb (same_xy a b)); simpl; [|auto].
     constructor; [|auto]. intros H. apply H1. apply in_map_iff in H. destruct H as (e & He & Hin).
     apply filter_In in Hin. apply in_map_iff. exists e. tauto.
@@ -41,7 +92,7 @@ Qed.
 (* every entry is represented by an entry with the same x, y *)
 Lemma prune_complete e l : In e l -> exists e', In e' (prune l) /\ key e' = key e.
 Proof.
-  induction l as [|a r IH]; simpl; [tauto|]. intros [->|H].
+  rewrite prune_eq. induction l as [|a r IH]; simpl; [tauto|]. intros [->|H].
   - exists e. auto.
   - destruct (IH H) as (e' & Hin & Hk).
     destruct (same_xy a e') eqn:E.
@@ -58,7 +109,7 @@ Qed.
 (* nothing is erased when the x, y are pairwise different *)
 Lemma prune_id l : NoDup (map key l) -> prune l = l.
 Proof.
-  induction l as [|a r IH]; simpl; intros H; [reflexivity|]. inversion H; subst.
+  rewrite prune_eq. induction l as [|a r IH]; simpl; intros H; [reflexivity|]. inversion H; subst.
   rewrite IH by assumption. f_equal.
   apply filter_all_id. intros e He. apply negb_true_iff, same_xy_false.
   intros K. apply H2. rewrite K. apply in_map. exact He.
@@ -66,7 +117,7 @@ Qed.
 
 (* the first entry with some x, y is the one that survives (its flag is the one written) *)
 Lemma prune_head a r : exists q, prune (a :: r) = a :: q.
-Proof. simpl. eexists. reflexivity. Qed.
+Proof. unfold prune. simpl. eexists. reflexivity. Qed.
 
 Lemma sort_xy_flag e : flag (sort_xy e) = flag e.
 Proof. destruct e as [[x y] t]. unfold sort_xy, flag. destruct (Nat.ltb y x); reflexivity. Qed.
@@ -733,14 +784,12 @@ Proof.
   - right. replace (from + S i)%nat with (S from + i)%nat by lia. apply IH. lia.
 Qed.
 
-Definition pbc_format (fmt : Z) : Prop := fmt = 4%Z \/ fmt = 5%Z.
-
-Lemma build_pbclst_In kind bdry b : (b < length bdry)%nat -> pbc_format (nth b bdry 0%Z) ->
+Lemma build_pbclst_In kind bdry b : (b < length bdry)%nat -> pbc_selected kind (nth b bdry 0%Z) = true ->
   In (mkPbce b (is_antiperiodic kind (nth b bdry 0%Z)) 0 0 0 0) (build_pbclst kind bdry).
 Proof.
   intros Hb Hf. unfold build_pbclst. apply in_flat_map. exists (b, nth b bdry 0%Z). split.
   - exact (combine_seq_nth bdry 0%Z 0 b Hb).
-  - destruct Hf as [-> | ->]; simpl; auto.
+  - rewrite Hf. simpl. auto.
 Qed.
 
 Lemma count_entities_nil isarc : forall bcs i, count_entities isarc i bcs [] = inr [].
@@ -768,7 +817,7 @@ Qed.
 
 (* more than two lines carry one (anti)periodic condition: rejected *)
 Theorem reject_more_than_two_segments {F} (A : Arith F) kind bdry orig lines arcs wls was b :
-  (b < length bdry)%nat -> pbc_format (nth b bdry 0%Z) -> (3 <= occ b (map (pl_bc (F:=F)) lines))%nat ->
+  (b < length bdry)%nat -> pbc_selected kind (nth b bdry 0%Z) = true -> (3 <= occ b (map (pl_bc (F:=F)) lines))%nat ->
   exists err, validity A kind bdry orig lines arcs wls was = inl err.
 Proof.
   intros Hb Hf Hocc. unfold validity.
@@ -780,7 +829,7 @@ Proof.
 Qed.
 
 Theorem reject_more_than_two_arcs {F} (A : Arith F) kind bdry orig lines arcs wls was b :
-  (b < length bdry)%nat -> pbc_format (nth b bdry 0%Z) -> (3 <= occ b (map (pa_bc (F:=F)) arcs))%nat ->
+  (b < length bdry)%nat -> pbc_selected kind (nth b bdry 0%Z) = true -> (3 <= occ b (map (pa_bc (F:=F)) arcs))%nat ->
   exists err, validity A kind bdry orig lines arcs wls was = inl err.
 Proof.
   intros Hb Hf Hocc. unfold validity.
@@ -797,7 +846,7 @@ Qed.
 
 (* one (anti)periodic condition on at least one line and at least one arc: rejected *)
 Theorem reject_mixed {F} (A : Arith F) kind bdry orig lines arcs wls was b :
-  (b < length bdry)%nat -> pbc_format (nth b bdry 0%Z) ->
+  (b < length bdry)%nat -> pbc_selected kind (nth b bdry 0%Z) = true ->
   (1 <= occ b (map (pl_bc (F:=F)) lines))%nat -> (1 <= occ b (map (pa_bc (F:=F)) arcs))%nat ->
   exists err, validity A kind bdry orig lines arcs wls was = inl err.
 Proof.
@@ -910,7 +959,7 @@ Qed.
 (* exactly two lines (positions i < j of the line list) carry the condition, no arc does, and their
    lengths differ by more than 1e-6: rejected *)
 Theorem reject_dissimilar {F} (A : Arith F) kind bdry orig (lines : list (pline (F:=F))) arcs wls was b l1 l2 l3 :
-  (b < length bdry)%nat -> pbc_format (nth b bdry 0%Z) ->
+  (b < length bdry)%nat -> pbc_selected kind (nth b bdry 0%Z) = true ->
   map pl_bc lines = l1 ++ Some b :: l2 ++ Some b :: l3 -> occ b l1 = 0 -> occ b l2 = 0 -> occ b l3 = 0 ->
   occ b (map (pa_bc (F:=F)) arcs) = 0 ->
   altb A (tol6 A) (aabs A (asub A (len_of A orig wls (length l1)) (len_of A orig wls (length l1 + 1 + length l2)))) = true ->
@@ -948,10 +997,42 @@ Proof.
   destruct (rest_arcs A orig (length lines) arcs _ [] st1) as [[nodes' segs']|]; reflexivity.
 Qed.
 
-(* the electrostatics reader calls BdryFormat 3 periodic; the selection looks for 4 and 5 only *)
-Lemma electrostatic_periodic_not_selected :
-  is_periodic Electrostatics 3 = true /\ build_pbclst Electrostatics [3%Z] = [].
-Proof. split; reflexivity. Qed.
+Lemma forallb_false {T} (f : T -> bool) l : forallb f l = false -> exists x, In x l /\ f x = false.
+Proof.
+  induction l as [|a r IH]; simpl; [discriminate|]. destruct (f a) eqn:E; simpl.
+  - intros H. destruct (IH H) as (x & Hx & Hf). eauto.
+  - intros _. eauto.
+Qed.
+
+(* the selection test against the readers' notion of an (anti)periodic condition: if the decision
+   comes out true every such condition (BdryFormat 0..7) is selected ... *)
+Theorem selection_complete : selection_matches_readers = true ->
+  forall k fmt, (0 <= fmt <= 7)%Z -> reader_pbc k fmt = true -> pbc_selected k fmt = true.
+Proof.
+  unfold selection_matches_readers. intros H k fmt Hr Hp.
+  rewrite forallb_forall in H. assert (Hk : In k [Magnetics; Electrostatics; HeatFlow]) by (destruct k; simpl; auto).
+  specialize (H k Hk). rewrite forallb_forall in H.
+  assert (Hf : In fmt [0; 1; 2; 3; 4; 5; 6; 7]%Z).
+  { assert (fmt = 0 \/ fmt = 1 \/ fmt = 2 \/ fmt = 3 \/ fmt = 4 \/ fmt = 5 \/ fmt = 6 \/ fmt = 7)%Z by lia. simpl. intuition. }
+  specialize (H fmt Hf). rewrite Hp in H. exact H.
+Qed.
+
+(* ... and if it comes out false there is a condition that the reader calls (anti)periodic for which,
+   whatever lines and arcs carry it, no pair is listed (and no invalid assignment rejected) *)
+Theorem selection_incomplete_no_pairs : selection_matches_readers = false ->
+  exists k fmt, reader_pbc k fmt = true /\ pbc_selected k fmt = false /\
+    forall (F : Type) (A : Arith F) dosmart orig lines arcs edges eles,
+      match pbc_mesh A k dosmart [fmt] orig lines arcs edges eles with
+      | POk _ _ pts => pts = []
+      | PErr e => e = EBadInput
+      end.
+Proof.
+  unfold selection_matches_readers. intros H. destruct (forallb_false _ _ H) as (k & _ & Hk).
+  destruct (forallb_false _ _ Hk) as (fmt & _ & Hf). exists k, fmt.
+  destruct (reader_pbc k fmt) eqn:E1; [|discriminate]. destruct (pbc_selected k fmt) eqn:E2; [discriminate|].
+  split; [reflexivity|]. split; [reflexivity|]. intros. apply no_pbc_no_pairs.
+  unfold build_pbclst. simpl. rewrite E2. reflexivity.
+Qed.
 
 (* ------------------------------------------------------------------------------------------ *)
 (* (e) what a listed pair does to the solution (restated from SparseProofs.tie_system_equiv)    *)
